@@ -285,6 +285,15 @@ def classify_undef(e):
     ints = list(e.atoms(sym.Integral))
     if ints:
         if len(ints) != 1:
+            his = set()
+            for it in ints:
+                (tau, lo, hi) = it.limits[0]
+                if lo != 0:
+                    return {'ukind': 'other', 'text': str(e)[:200]}
+                his.add(hi)
+            if len(his) == 1:
+                hi = his.pop()
+                return {'ukind': 'conv', 'causal_limits': bool(hi == t), 'upper': str(hi), 'n_integrals': len(ints)}
             return {'ukind': 'other', 'text': str(e)[:200]}
         it = ints[0]
         (tau, lo, hi) = it.limits[0]
